@@ -910,7 +910,36 @@ class Translator:
             v.extra["elem_of"] = iter_node.id
         return v
 
+    def literal_comp(self, n, env):
+        """[e(x) for x in [a, b] if c(x)] with a literal sequence and no condition: [e(a); e(b)]"""
+        if len(n.generators) != 1:
+            return None
+        g = n.generators[0]
+        if g.ifs or g.is_async or not isinstance(g.target, ast.Name):
+            return None
+        snap_h = len(self.hoists)
+        it = self.expr(g.iter, env)
+        elems = it.extra.get("elems") if not is_opt(it.ty) else None
+        if elems is None or not elems:
+            del self.hoists[snap_h:]
+            return None
+        out = []
+        for e in elems:
+            env2 = dict(env)
+            env2[g.target.id] = e
+            out.append(self.expr(n.elt, env2))
+        t = out[0].ty
+        for v in out[1:]:
+            t = join(t, v.ty)
+            if t is None:
+                raise Unsupported("comprehension with elements of different types")
+        cs = [self.coerce(v, t) for v in out]
+        return V("[" + "; ".join(c.term for c in cs) + "]", List(t), self.new_obj(FRESH), extra={"elems": cs})
+
     def e_ListComp(self, n, env):
+        lit = self.literal_comp(n, env)
+        if lit is not None:
+            return lit
         pat, env2, src, et, it = self.comprehension(n, env)
         if isinstance(n.elt, ast.Name) and isinstance(n.generators[0].target, ast.Name) \
                 and n.elt.id == n.generators[0].target.id:
@@ -954,7 +983,8 @@ class Translator:
         for v in vs:
             if v.oid:
                 eo = join_origin(eo, self.origin_of(v.oid))
-        return V("[" + "; ".join(self.coerce(v, t).term for v in vs) + "]", List(t), self.new_obj(FRESH, eo))
+        cs = [self.coerce(v, t) for v in vs]
+        return V("[" + "; ".join(c.term for c in cs) + "]", List(t), self.new_obj(FRESH, eo), extra={"elems": cs})
 
     def empty_list(self):
         tv = TV()
@@ -969,12 +999,35 @@ class Translator:
 
     def e_Tuple(self, n, env):
         vs = [self.expr(x, env) for x in n.elts]
+        if len(vs) == 1:            # (x,) is only ever used as a one-element sequence
+            return V("[%s]" % vs[0].term, List(vs[0].ty), self.new_obj(FRESH), extra={"elems": vs})
         return V("(" + ", ".join(v.term for v in vs) + ")", Tup(*[v.ty for v in vs]))
 
     def e_Dict(self, n, env):
         if n.keys:
             raise Unsupported("non-empty dictionary literal")
         return V("py_no_kwargs", KW, self.new_obj(FRESH))
+
+    def e_Lambda(self, n, env):
+        a = n.args
+        if a.vararg or a.kwarg or a.kwonlyargs or a.defaults or a.posonlyargs:
+            raise Unsupported("lambda signature outside the fragment")
+        return V("tt", "Macro", extra={"macro": ([x.arg for x in a.args], n.body, env)})
+
+    def apply_macro(self, m, args, env):
+        params, body, menv = m
+        if len(args) != len(params):
+            raise Unsupported("call of a local function with the wrong number of arguments")
+        # Python looks the free names of the body up when the function is CALLED: they must still be what they were
+        for x in ast.walk(body):
+            if isinstance(x, ast.Name) and x.id not in params and (x.id in menv or x.id in env):
+                a_, b_ = menv.get(x.id), env.get(x.id)
+                if a_ is None or b_ is None or a_.term != b_.term or a_.oid != b_.oid:
+                    raise Unsupported("local function whose free name %s changes between its definition and a call" % x.id)
+        env2 = dict(menv)
+        for p_, a_ in zip(params, args):
+            env2[p_] = a_
+        return self.expr(body, env2)
 
     def e_Subscript(self, n, env):
         o = self.unwrap(self.expr(n.value, env))
@@ -1064,6 +1117,10 @@ class Translator:
         f = n.func
         if isinstance(f, ast.Attribute):
             return self.method_call(n, env)
+        if isinstance(f, ast.Name) and f.id in env and env[f.id].ty == "Macro":
+            if n.keywords:
+                raise Unsupported("keyword arguments in a call of a local function")
+            return self.apply_macro(env[f.id].extra["macro"], [self.expr(a, env) for a in n.args], env)
         if isinstance(f, ast.Subscript) or (isinstance(f, ast.Name) and f.id in env):
             fv = self.unwrap(self.expr(f, env))
             if is_rule(fv.ty):
@@ -1111,6 +1168,11 @@ class Translator:
             et = res(res(xs.ty)[1])
             if et != B:
                 raise Unsupported("%s of a sequence without truth values" % name)
+            if xs.extra.get("elems"):
+                es = xs.extra["elems"]
+                if len(es) == 1:
+                    return es[0]
+                return V("(" + (" || " if name == "any" else " && ").join(e.term for e in es) + ")", B)
             return V("(py_%s %s)" % (name, xs.term), B)
         if name in ("max", "min") and not n.keywords:
             if len(n.args) >= 2:
@@ -1196,7 +1258,7 @@ class Translator:
         if name == "_" or name not in self.loaded:
             return body_of(env2) if name == "_" or name not in env else body_of({k: x for k, x in env2.items() if k != name})
         simple = v.term.replace("_", "a").replace("'", "a").isalnum()
-        if (simple and not force_let) or res(v.ty) == NONE:
+        if (simple and not force_let) or res(v.ty) == NONE or v.ty == "Macro":
             env2[name] = v.but()
             return body_of(env2)
         g = self.gname(name)
@@ -1230,6 +1292,15 @@ class Translator:
         h0 = len(self.hoists)
         if _is_doc(s) or isinstance(s, (ast.Pass, ast.Assert, ast.Import, ast.ImportFrom)):
             return nxt(env)
+        if isinstance(s, ast.FunctionDef):
+            a = s.args
+            body = [x for x in s.body if not _is_doc(x) and not isinstance(x, ast.Pass)]
+            if a.vararg or a.kwarg or a.kwonlyargs or a.defaults or a.posonlyargs or s.decorator_list \
+                    or len(body) != 1 or not isinstance(body[0], ast.Return) or body[0].value is None:
+                raise Unsupported("local function that is not a single return")
+            env2 = dict(env)
+            env2[s.name] = V("tt", "Macro", extra={"macro": ([x.arg for x in a.args], body[0].value, env)})
+            return nxt(env2)
         if isinstance(s, ast.AnnAssign):
             if s.value is None:
                 return nxt(env)
